@@ -39,6 +39,6 @@ PROFILE = machine.Profile(
                                            (2, 'delete_trait'),
                                            (2, 'delete_class')] + C.NAMES,
     oracles=[oracles.c08_oracle], nontrivial=nontrivial, steps=40,
-    boundaries=(5, 12, 13, 28, 30), defect_rate=2)
+    boundaries=(5, 12, 13, 28, 30), defect_rate=2, rich_start=5)
 
 C.standard_module(globals(), 'C08', PROFILE, 25, 400)
